@@ -2,7 +2,8 @@
 from .common import jobs_for
 LEVEL = 'proof'
 LEVEL_TEXT = "interior-face flux cancellation (volume-weighted, with the real cellvolume), locality of face coefficients, row/column structure and 'total = sum of axis parts' are discharged per axis for a symbolic interior cell: one obligation covers every N, spacing, coefficient and field. 45 builders x 9 grids."
-LEVEL_NOTE = 'whole-domain statement (sum over cells telescopes to boundary faces) follows from the per-cell clauses by the separability/telescoping argument of DESIGN.md 5/C01 (not machine-checked in this tier); solver-level corollaries via the solvePDE contract (C04); floating point treated as real (A1); SphericalGrid3D is a recorded finding'
+LEVEL_NOTE = 'whole-domain statement (sum over cells telescopes to boundary faces) follows from the per-cell flux-form clauses by the Lean lemmas flux_form_sum / telescope (checked on every run; correspondence by inspection); closed systems are stated both for the reported ghost values (explicit steps) and for any field satisfying the traced boundary rows (implicit steps); solver-level corollaries via the solvePDE contract (C04); floating point treated as real (A1); SphericalGrid3D is a recorded finding'
+NOT_MACHINE_CHECKED = ['correspondence between the SMT-proved per-cell flux-form / cancellation clauses and the hypotheses of the Lean lemmas flux_form_sum / telescope / invariant_iterate (per axis, per line of cells)', "'to rounding': the identities hold in exact real arithmetic (A1)", 'implicit steps: the new field satisfies the assembled rows (C04 contract) with a solver assumed exact (A4)']
 MODULES = ['contracts.ops', 'contracts.canaries']
 TRUSTED = ['A1', 'A2', 'A5', 'A6', 'UF']
 
